@@ -32,6 +32,11 @@ Theorem C03_conn2d_is_the_cell_table :
 Proof. exact gen_conn2d_cells. Qed.
 Print Assumptions C03_conn2d_is_the_cell_table.
 
+Theorem C03_generated_connectivity_is_the_model :
+  (forall nr nt nz, gen_conn3d nr nt nz = conn3d nr nt nz) /\ (forall nr nt, gen_conn2d nr nt = conn2d nr nt).
+Proof. split; [exact gen_conn3d_is_model | exact gen_conn2d_is_model]. Qed.
+Print Assumptions C03_generated_connectivity_is_the_model.
+
 Theorem C03_cells_name_existing_nodes :
   forall nr nt nz i j k n, (i < nr - 1 -> j < nt -> k < nz - 1 -> In n (cell3 nt nz i j k) -> n < nr * nt * nz)%nat.
 Proof. exact cell3_in_range. Qed.
